@@ -207,7 +207,7 @@ do_commit(Model& m)
 }
 
 static void
-do_abort(Model& m)
+do_abort(Model& m, bool then_unmap = false)
 {
     if (!m.pending)
         return;
@@ -215,6 +215,12 @@ do_abort(Model& m)
     m.pending = false;
     probe("n.aborts");
     channel_abort_write(&m.ch);
+    if (then_unmap) {
+        // the source thread's way of dropping an empty camera frame: abort,
+        // then the usual unmap - which must commit nothing
+        channel_write_unmap(&m.ch);
+        probe("n.abort_then_unmap");
+    }
 }
 
 static const Seg*
@@ -564,7 +570,9 @@ struct ChanHarness : Harness
                 if (x < write_w) {
                     p.ops.push_back("wmap n=" + gen_size(g, cap));
                 } else if (x < 2 * write_w) {
-                    p.ops.push_back(g.chance(0.85) ? "wcommit" : "wabort");
+                    p.ops.push_back(g.chance(0.85)
+                                      ? "wcommit"
+                                      : (g.chance(0.5) ? "wabort" : "wabort unmap=1"));
                 } else if (x < 2 * write_w + read_w) {
                     snprintf(b, sizeof(b), "rmap r=%d",
                              (int)g.below((uint64_t)readers));
@@ -739,7 +747,7 @@ struct ChanHarness : Harness
             } else if (op.name == "wabort") {
                 if (!m->pending)
                     continue;
-                do_abort(*m);
+                do_abort(*m, op.i("unmap", 0) != 0);
                 hist("wabort");
             } else if (op.name == "rmap") {
                 int i = (int)(op.i("r") % nreaders);
